@@ -1,6 +1,7 @@
 """C17 — passwords and session tokens authenticate exactly their owner, only while valid (structural clauses)."""
 from .. import core, panics, fmt
 from ..core import describe, describe_r, desc_contains
+from .c01 import some_edge_of
 
 AP = "humphrey_auth::AuthProvider::<T>::"
 VALID = r"session::Session::valid$"
@@ -118,7 +119,10 @@ def run(chk):
                         if itb:
                             il = _deref_chain(cf, core.op_local(cf.term(itb[0][3])["args"][0]))
                             src_ok = il == buf_local
-                    chk.ob("R2.token", cf.path, "Session.token is the hex encoding of all of those bytes", ok and src_ok, f"token = {panics.short_desc(tok)}")
+                    how = "fold + {:02x}"
+                    if not folds:
+                        ok, src_ok, how = hex_table_encoding(prog, cf, buf_local)
+                    chk.ob("R2.token", cf.path, "Session.token is the hex encoding of all of those bytes", ok and src_ok, f"token = {panics.short_desc(tok)} ({how})")
                     exp = describe(prog, cf, rv["ops"][rv["fields"].index("expiry")])
                     chk.ob("R2.expiry", cf.path, "expiry = now + lifetime", desc_contains(exp, lambda y: y[0] == "bin" and y[1].startswith("Add")) and desc_contains(exp, lambda y: y[0] == "param" and y[2] == "lifetime") and
                            desc_contains(exp, lambda y: y[0] == "call" and y[1].endswith("SystemTime::elapsed")), f"{panics.short_desc(exp)}")
@@ -379,6 +383,71 @@ def whole_password_and_expiry(chk, prog):
     chk.floor("Session expiry assignments", m, 2)
 
 
+def hex_table_encoding(prog, b, buf_local):
+    """Loop form of the hex encoding: for every byte of the buffer, push TABLE[byte >> 4] then TABLE[byte & 0xf] with TABLE the sixteen
+    hex digits.  Returns (shape ok, iterates the whole buffer, description)."""
+    from .. import bits
+    from ..fmt import _deref_chain
+    be = bits.BitEval(prog, b)
+    pushes = []
+    for blk, t in b.calls_to(r"String::push$"):
+        a = t["args"][1]
+        l = core.op_local(a)
+        ds = b.defs().get(l, []) if l is not None else []
+        if len(ds) == 1 and ds[0][2] == "assign" and ds[0][3]["rv"]["k"] == "cast":
+            src = core.op_local(ds[0][3]["rv"]["o"])
+            d2 = b.defs().get(src, [])
+            if len(d2) == 1 and d2[0][2] == "assign" and d2[0][3]["rv"]["k"] == "use" and d2[0][3]["rv"]["o"].get("pl"):
+                pl = d2[0][3]["rv"]["o"]["pl"]
+                idx = [e for e in pl["p"] if e[0] == "i"]
+                tab = core.describe(prog, b, pl["l"])
+                lit = None
+                for y in core.desc_nodes(tab) if hasattr(core, "desc_nodes") else []:
+                    pass
+                txt = str(tab)
+                is_hex = "0123456789abcdef" in txt or "0123456789ABCDEF" in txt or _table_bytes(prog, b, pl["l"]) in (b"0123456789abcdef", b"0123456789ABCDEF")
+                if len(idx) == 1 and is_hex:
+                    pushes.append((blk, be.local(idx[0][1])))
+    if len(pushes) != 2:
+        return False, False, f"{len(pushes)} table pushes"
+    pushes.sort(key=lambda x: sum(1 for y in pushes if b.dominates(y[0], x[0])))
+    def nib(v):
+        if v is None:
+            return None
+        srcs = [x for x in v[:4]]
+        if any(x in (0, 1, None) for x in srcs) or any(x != 0 for x in v[4:]):
+            return None
+        keys = set((x[1], x[2]) for x in srcs)
+        if len(keys) != 1:
+            return None
+        return [x[3] for x in srcs], next(iter(keys))
+    hi, lo = nib(pushes[0][1]), nib(pushes[1][1])
+    shape = hi is not None and lo is not None and hi[0] == [4, 5, 6, 7] and lo[0] == [0, 1, 2, 3] and hi[1] == lo[1]
+    # the byte comes from iterating the whole random buffer
+    whole = False
+    for nb, t in b.calls_to(r"Iterator>?::next$|Iterator::next$"):
+        recv = core.describe(prog, b, t["args"][0])
+        if not [c for c in core.desc_calls(recv) if core.re.search(r"::(skip|take|step_by|filter|rev)$", c[1])]:
+            for c in core.desc_calls(recv):
+                if c[1].endswith("into_iter") and len(c) > 3:
+                    a0 = b.term(c[3])["args"][0]
+                    if _deref_chain(b, core.op_local(a0)) == buf_local or core.op_local(a0) == buf_local:
+                        whole = True
+    return shape, whole, "loop over the buffer pushing TABLE[b >> 4], TABLE[b & 0xf]"
+
+
+def _table_bytes(prog, b, l):
+    d = core.describe(prog, b, l)
+    for y in _nodes(d):
+        if y[0] == "lit" and isinstance(y[1], (bytes, bytearray)):
+            return bytes(y[1])
+        if y[0] == "lit" and isinstance(y[1], str) and len(y[1]) == 16:
+            return y[1].encode()
+        if y[0] == "array" and len(y[1]) == 16 and all(z[0] == "lit" for z in y[1]):
+            return bytes(z[1] for z in y[1])
+    return None
+
+
 def db_lookup(chk, prog):
     """R8: the example database (Vec<User>) identifies users / sessions by full string equality."""
     us = prog.structs.get("humphrey_auth::user::User", {}).get("fields", [])
@@ -424,6 +493,22 @@ def db_lookup(chk, prog):
                 ok, why = implies_equality(prog, cb, 0, stored, pres)
                 chk.ob("R8.db_lookup", base + m, f"{m}: an entry matches only if its stored {what} == the presented {what} (whole-string equality)", ok, why,
                        where=f"{cb.file}:{cb.line}")
+        # loop form: `for user in self.iter() { if <test> { return <found> } }`: every way out of the loop body other than
+        # running out of entries is a match, and must be taken only under whole-string equality of stored and presented value
+        if not finds:
+            for nb, t in b.calls_to(r"Iterator>?::next$|Iterator::next$"):
+                recv = describe(prog, b, t["args"][0])
+                if not desc_contains(recv, lambda y: y[0] == "param" and y[1] == 1):
+                    continue
+                cyc = {x for x in b.reachable(b.succs(nb)) if nb in b.reachable([x])} | {nb}
+                none_t = [tgt for (s_, tgt) in some_edge_of(prog, b, nb, "None")]
+                exits = sorted(set(v for u in cyc for v in b.succs(u) if v not in cyc and v not in none_t and b.term(v)["k"] != "unreachable"))
+                for ex in exits:
+                    n += 1
+                    eqs = [(a, r) for (a, op, r) in panics.cmp_facts(prog, b, ex) if op == "=="]
+                    ok = any((stored(b, a) and pres(b, r)) or (stored(b, r) and pres(b, a)) for a, r in eqs)
+                    chk.ob("R8.db_lookup", base + m, f"{m}: an entry matches only if its stored {what} == the presented {what} (whole-string equality)", ok,
+                           f"the loop is left as 'found' under {[(panics.short_desc(a), panics.short_desc(r)) for a, r in eqs]}", where=b.where(ex))
     chk.floor("Vec<User> lookup predicates", n, 4)
     rb = prog.bodies.get(base + "remove_user")
     if rb:
